@@ -775,9 +775,47 @@ func (tb *termBuilder) load(addr ssa.Value, at ssa.Instruction) *Term {
 		return tb.wrapFields(t, root.Type(), path)
 	default:
 		// pointer value (parameter, call result, load of pointer): *p then fields
+		if v := forwardedStore(root, path, at); v != nil && tb.depth < maxTermDepth-4 {
+			return tb.term(v.Val, v)
+		}
 		t := tb.term(root, at)
 		return tb.wrapFields(t, root.Type(), path)
 	}
+}
+
+// forwardedStore: `p.f = v; return p.f` — a field of a pointed-to object read back right after it was assigned, in
+// the same block and with nothing in between that could write memory (no call, no other store), is the value assigned.
+func forwardedStore(root ssa.Value, path []int, at ssa.Instruction) *ssa.Store {
+	if at == nil || at.Block() == nil || len(path) == 0 {
+		return nil
+	}
+	instrs := at.Block().Instrs
+	i := -1
+	for k, in := range instrs {
+		if in == at {
+			i = k
+		}
+	}
+	for k := i - 1; k >= 0; k-- {
+		switch x := instrs[k].(type) {
+		case *ssa.Store:
+			r, p := addrPath(x.Addr)
+			if r != root || len(p) != len(path) {
+				return nil
+			}
+			for j := range p {
+				if p[j] != path[j] {
+					return nil
+				}
+			}
+			return x
+		case *ssa.FieldAddr, *ssa.IndexAddr, *ssa.UnOp, *ssa.BinOp, *ssa.Convert, *ssa.ChangeType, *ssa.MakeInterface, *ssa.Field, *ssa.Extract, *ssa.Phi, *ssa.Alloc, *ssa.DebugRef:
+			continue
+		default:
+			return nil
+		}
+	}
+	return nil
 }
 
 // loadOrTerm: for IndexAddr on an array held in an alloc, X is the address of the array.
